@@ -796,6 +796,17 @@ class Interp:
                 return self.ev(node.args[0])
             finally:
                 self.env = saved
+        if isinstance(node.func, ast.Name) and node.func.id == 'athead':
+            # value of an expression at the head of the innermost loop (ghost code at the back edge)
+            heads = getattr(self, 'head_envs', [])
+            if not heads:
+                raise OutsideSubset('athead() outside a loop')
+            saved = self.env
+            self.env = dict(heads[-1])
+            try:
+                return self.ev(node.args[0])
+            finally:
+                self.env = saved
         if isinstance(node.func, ast.Name) and node.func.id == 'isinstance':
             return self.isinstance_(node)
         fn = self.ev(node.func)
@@ -1634,6 +1645,9 @@ class Interp:
             self.out = self.fresh(self.out_sort, 'out')
             self.env['__out__'] = self.out
         head_snapshot = dict(self.env)
+        if not hasattr(self, 'head_envs'):
+            self.head_envs = []
+        self.head_envs.append(head_snapshot)
         # the loop-head state is what a counter-model of a loop-cut obligation describes
         self.inputs = dict(self.inputs)
         self.inputs['@loop%d' % ordinal] = {n: self.env[n] for n in sorted(targets)
